@@ -1,0 +1,119 @@
+// Copyright (c) Anza Technology, Inc.
+// SPDX-License-Identifier: Apache-2.0
+
+//! Verification hooks (cargo feature `verif-hooks`).
+//!
+//! Thin public wrappers that let the out-of-tree verification harness drive the
+//! crate-private [`FinalityTracker`] and [`ParentReadyTracker`] directly.
+//! Every method forwards to the real tracker exactly once; nothing here is used by the crate.
+
+use either::Either;
+use tokio::sync::oneshot;
+
+use super::finality_tracker::{FinalityTracker, FinalizationEvent};
+use super::parent_ready_tracker::ParentReadyTracker;
+use crate::crypto::merkle::BlockHash;
+use crate::{BlockId, Slot};
+
+/// Plain-data form of a `FinalizationEvent`:
+/// `(finalized, implicitly_finalized, implicitly_skipped)`.
+pub type VerifFinalizationEvent = (Option<BlockId>, Vec<BlockId>, Vec<Slot>);
+
+fn event_to_plain(event: FinalizationEvent) -> VerifFinalizationEvent {
+    (
+        event.finalized,
+        event.implicitly_finalized,
+        event.implicitly_skipped,
+    )
+}
+
+fn plain_to_event(event: VerifFinalizationEvent) -> FinalizationEvent {
+    FinalizationEvent {
+        finalized: event.0,
+        implicitly_finalized: event.1,
+        implicitly_skipped: event.2,
+    }
+}
+
+/// Public wrapper around the crate-private [`FinalityTracker`].
+#[derive(Default)]
+pub struct VerifFinalityTracker(FinalityTracker);
+
+impl VerifFinalityTracker {
+    pub fn add_parent(&mut self, block: BlockId, parent: BlockId) -> VerifFinalizationEvent {
+        event_to_plain(self.0.add_parent(block, parent))
+    }
+
+    pub fn mark_fast_finalized(&mut self, block: BlockId) -> VerifFinalizationEvent {
+        event_to_plain(self.0.mark_fast_finalized(block))
+    }
+
+    pub fn mark_notarized(&mut self, block: BlockId) -> VerifFinalizationEvent {
+        event_to_plain(self.0.mark_notarized(block))
+    }
+
+    pub fn mark_finalized(&mut self, slot: Slot) -> VerifFinalizationEvent {
+        event_to_plain(self.0.mark_finalized(slot))
+    }
+
+    pub fn highest_finalized_slot(&self) -> Slot {
+        self.0.highest_finalized_slot()
+    }
+
+    pub fn first_unpruned_slot(&self) -> Slot {
+        self.0.first_unpruned_slot()
+    }
+
+    /// Retained `(slot, tag, hash)`; tags: 0 notarized, 1 final-pending-notar, 2 finalized,
+    /// 3 implicitly finalized, 4 implicitly skipped.
+    pub fn status(&self) -> Vec<(Slot, u8, Option<BlockHash>)> {
+        self.0.verif_status()
+    }
+
+    pub fn parents(&self) -> Vec<(BlockId, BlockId)> {
+        self.0.verif_parents()
+    }
+}
+
+/// Public wrapper around the crate-private [`ParentReadyTracker`].
+#[derive(Default)]
+pub struct VerifParentReadyTracker(ParentReadyTracker);
+
+impl VerifParentReadyTracker {
+    pub fn mark_notar_fallback(&mut self, id: &BlockId) -> Vec<(Slot, BlockId)> {
+        self.0.mark_notar_fallback(id).into_vec()
+    }
+
+    pub fn mark_skipped(&mut self, slot: Slot) -> Vec<(Slot, BlockId)> {
+        self.0.mark_skipped(slot).into_vec()
+    }
+
+    pub fn handle_finalization(&mut self, event: VerifFinalizationEvent) -> Vec<(Slot, BlockId)> {
+        self.0.handle_finalization(plain_to_event(event)).into_vec()
+    }
+
+    pub fn parents_ready(&self, slot: Slot) -> Vec<BlockId> {
+        self.0.parents_ready(slot).to_vec()
+    }
+
+    pub fn wait_for_parent_ready(
+        &mut self,
+        slot: Slot,
+    ) -> Either<BlockId, oneshot::Receiver<BlockId>> {
+        self.0.wait_for_parent_ready(slot)
+    }
+
+    pub fn prune(&mut self, new_root: Slot) {
+        self.0.prune(new_root);
+    }
+
+    pub fn root(&self) -> Slot {
+        self.0.verif_root()
+    }
+
+    /// Retained `(slot, skip, notar-fallback hashes, ready parents, waiter registered)`.
+    #[allow(clippy::type_complexity)]
+    pub fn states(&self) -> Vec<(Slot, bool, Vec<BlockHash>, Vec<BlockId>, bool)> {
+        self.0.verif_states()
+    }
+}
